@@ -64,7 +64,22 @@ def impl(line):
         rs.append((10 ** 9, 10 ** 9 + 1))
         rs.reverse()
     second, _ = once()
-    return first if first == second else "REPEAT first [%s] second [%s]" % (first, second)
+    if first != second:
+        return "REPEAT first [%s] second [%s]" % (first, second)
+    # the answer is a function of the SET of specs (the statement speaks of "any spec" / "the specs"): the same
+    # specs written in the opposite order get the same answer - the same ranges, or the same rejection
+    text = dec_text(hdr)
+    if GRAMMAR.fullmatch(text) and "," in text:
+        unit, rest = text.split("=", 1)
+        rev = unit + "=" + ",".join(reversed([p.strip(" \t") for p in rest.split(",")]))
+        try:
+            rs2 = FileResponseMixin.parse_range(rev, int(size))
+            other = "ok " + (",".join("%d-%d" % (a, b) for a, b in rs2) if rs2 else "-")
+        except Exception as exc:  # noqa
+            other = exc_name(exc)
+        if other != first:
+            return "ORDER as written [%s] specs reversed [%s]" % (first, other)
+    return first
 
 
 # ---- oracle: the property stated directly, independent of the Lean model -------------
@@ -78,6 +93,8 @@ def oracle(line, out):
     text, n = dec_text(hdr), int(size)
     if out.startswith("REPEAT"):
         return "the same header and size resolved differently the second time: %s" % out[:200]
+    if out.startswith("ORDER"):
+        return "the answer depends on the order in which the same specs are written: %s" % out[:200]
     if out.startswith("crash") or out == "hang":
         return "parse_range raised a non-HTTP error: %s" % out
     if out.startswith("http"):
@@ -341,7 +358,10 @@ def extra(rng, tier):
     every file size (the empty file and the empty header value included); an accepted one is answered 200 / 206"""
     headers = ["", "bytes=", "hello", "bytes", "items=0-1", "bytes=0-0", "bytes=-1", "bytes=-0", "bytes=0-", "bytes=3-",
                "bytes=5-3", "bytes=0-0,2-2", "bytes=9-", "bytes=10-", "bytes=-5", "bytes=a-b", "bytes=0-0,-0", " ",
-               "bytes=0-4,6-9", "bytes=0-1,4-5,8-9", "bytes=8-9,0-1", "bytes=2-5,4-7", "bytes=-2,0-0"]
+               "bytes=0-4,6-9", "bytes=0-1,4-5,8-9", "bytes=8-9,0-1", "bytes=2-5,4-7", "bytes=-2,0-0",
+               # header bytes beyond ASCII are part of the text that is resolved (Latin-1), not noise to drop or replace
+               "bytes=0-1\xff2", "bytes\xa0=0-1", "bytes=0\xe9-1", "bytes=\xb2-3", "bytes=0-\xb9", "byt\xe9s=0-1", "bytes=0-1,\xa02-3",
+               "bytes=1\x80-\x802"]
     violations, n, stats = [], 0, {}
     for size in (0, 1, 5, 10):
         for h in headers:
